@@ -26,6 +26,10 @@ Definition leaf_size_guard (l : leaf) : bool :=
   | LFullOnly n _ _ => lenN n =? 4
   | LTfra _ _ _ _ _ _ es => lenN es <? 4294967296
   | LPssh _ _ sid kids _ => (lenN sid =? 16) && forallb (fun k => lenN k =? 16) kids
+  | LVisual n _ _ _ _ _ _ cn => (lenN n =? 4) && (lenN cn <=? 31)
+  | LAudio n _ _ _ _ => lenN n =? 4
+  | LColr ct _ _ _ _ _ => lenN ct =? 4
+  | LSchm _ _ st _ _ => lenN st =? 4
   | _ => true
   end.
 
@@ -76,6 +80,12 @@ Proof.
   destruct H as [Hk Ht]. apply N.eqb_eq in Hk. cbn [flat_map]. rewrite lenN_app, lenN_cons, IH, Hk by assumption. lia.
 Qed.
 
+Lemma lenN_wr_nalus l : lenN (flat_map wr_nalu l) = sumN (map (fun x => 2 + lenN x) l).
+Proof.
+  induction l as [|x t IH]; [reflexivity|]. cbn [flat_map map sumN]. unfold wr_nalu at 1.
+  rewrite !lenN_app, lenN_be_enc, IH. lia.
+Qed.
+
 Lemma lenN_unity : lenN unity_matrix = 36.
 Proof. reflexivity. Qed.
 
@@ -93,7 +103,7 @@ Ltac lens :=
                | rewrite (lenN_flat_map_const _ _ _ (lenN_wr_elst _))
                | rewrite (lenN_flat_map_const _ _ _ (lenN_wr_tfra _ _ _ _))
                | rewrite (lenN_flat_map_const _ _ _ (lenN_be_enc _))
-               | rewrite lenN_wr_stsc
+               | rewrite lenN_wr_stsc | rewrite lenN_wr_nalus
                | match goal with Hn : lenN (leaf_name _) = 4 |- _ => rewrite Hn end ].
 
 Lemma leaf_name_len l : leaf_size_guard l = true -> lenN (leaf_name l) = 4.
@@ -162,6 +172,28 @@ Proof.
     destruct (version =? 1); lens; lia.
   - (* pssh *) apply andb_true_iff in G. destruct G as [G1 G2]. apply N.eqb_eq in G1. cbn [size_leaf].
     destruct (0 <? version); lens; rewrite ?lenN_flat_id by assumption; lia.
+  - (* stsd *) lens. lia.
+  - (* dref *) lens. lia.
+  - (* visual *) apply andb_true_iff in G. destruct G as [_ G]. apply N.leb_le in G. cbn [chunk nth].
+    lens. unfold vis_pad, u8. rewrite (N.mod_small (lenN cname)) by lia.
+    replace ((31 + 256 - lenN cname) mod 256) with (31 - lenN cname)
+      by (rewrite <- (N.mod_unique (31 + 256 - lenN cname) 256 1 (31 - lenN cname)); lia).
+    lia.
+  - (* audio *) cbn [chunk nth]. lens. lia.
+  - (* url *) cbn [size_leaf]. destruct noLoc, noZero; lens; lia.
+  - (* avcC *) cbn [size_leaf chunk nth hd]. destruct (avc_plain profile); cbn [orb]; [|destruct noTrailing]; lens; lia.
+  - (* btrt *) lens. lia.
+  - (* pasp *) lens. lia.
+  - (* colr *) apply N.eqb_eq in G. cbn [size_leaf]. unfold colr_icc.
+    destruct (bytes_eqb ctype n_nclx) eqn:E1.
+    + injection Eb as <-. lens. lia.
+    + destruct (bytes_eqb ctype n_nclc) eqn:E2.
+      * injection Eb as <-. apply bytes_eqb_eq in E2. subst ctype.
+        change (bytes_eqb n_nclc n_rICC || bytes_eqb n_nclc n_prof) with false. lens. rewrite ?G. lia.
+      * injection Eb as <-. destruct (bytes_eqb ctype n_rICC || bytes_eqb ctype n_prof); lens; lia.
+  - (* clap *) lens. lia.
+  - (* schm *) apply N.eqb_eq in G. cbn [size_leaf]. destruct (has flags 1); lens; lia.
+  - (* cslg *) cbn [size_leaf]. destruct (version =? 0); cbn [negb]; lens; lia.
 Qed.
 
 (* ---------------------------------------------------------------- header field of the written bytes *)
@@ -191,12 +223,15 @@ Section MboxInd.
   Hypothesis HL : forall h l r, P (MLeaf h l r).
   Hypothesis HC : forall h cs, Forall P cs -> P (MCont h cs).
   Hypothesis HU : forall h p, P (MUnknown h p).
+  Hypothesis HP : forall h l r cs, Forall P cs -> P (MPre h l r cs).
   Fixpoint mbox_ind' (t : mbox) : P t :=
     match t with
     | MLeaf h l r => HL h l r
     | MCont h cs => HC h cs ((fix go (cs : list mbox) : Forall P cs :=
                                 match cs with [] => Forall_nil _ | c :: t => Forall_cons _ (mbox_ind' c) (go t) end) cs)
     | MUnknown h p => HU h p
+    | MPre h l r cs => HP h l r cs ((fix go (cs : list mbox) : Forall P cs :=
+                                match cs with [] => Forall_nil _ | c :: t => Forall_cons _ (mbox_ind' c) (go t) end) cs)
     end.
 End MboxInd.
 
@@ -206,6 +241,8 @@ Fixpoint size_ok (t : mbox) : bool :=
   | MCont h cs => (lenN (h_name h) =? 4) && (8 + sumN (map size_box cs) <? 4294967296) && forallb size_ok cs
   | MUnknown h p => (lenN (h_name h) =? 4) && (h_size h =? (if 8 <? h_len h then 16 else 8) + lenN p) &&
                     (h_size h <? (if 8 <? h_len h then 18446744073709551616 else 4294967296))
+  | MPre _ l _ cs => leaf_size_guard l && negb (leaf_large l) &&
+                     (size_leaf l + sumN (map size_box cs) <? 4294967296) && forallb size_ok cs
   end.
 
 (* the property at one node: the encoder succeeds, writes Size() bytes, and the size field it writes first
@@ -216,6 +253,7 @@ Definition node_ok (t : mbox) : Prop :=
 Fixpoint every (P : mbox -> Prop) (t : mbox) : Prop :=
   P t /\ match t with
          | MCont _ cs => fold_right (fun c acc => every P c /\ acc) True cs
+         | MPre _ _ _ cs => fold_right (fun c acc => every P c /\ acc) True cs
          | _ => True
          end.
 
@@ -261,7 +299,7 @@ Proof. induction 1; cbn [fold_right]; auto. Qed.
 
 Lemma tree_size t : size_ok t = true -> forall enc, raw_box false t = Ok enc -> every node_ok t.
 Proof.
-  induction t as [h l r|h cs IH|h p] using mbox_ind'; intros Hs enc He; cbn [size_ok] in Hs.
+  induction t as [h l r|h cs IH|h p|h l r cs IH] using mbox_ind'; intros Hs enc He; cbn [size_ok] in Hs.
   - (* leaf *)
     apply andb_true_iff in Hs. destruct Hs as [Hg Hfit]. cbn [every]. split; [|exact I].
     exists enc. cbn [raw_box size_box] in *. split; [assumption|].
@@ -327,6 +365,38 @@ Proof.
     + apply hdr_field_large; assumption.
     + unfold enc_hdr. rewrite !lenN_app, lenN_be_enc, Hn. lia.
     + apply hdr_field_compact. lia.
+  - (* prefixed box *)
+    apply andb_true_iff in Hs. destruct Hs as [Hs Hcs]. apply andb_true_iff in Hs. destruct Hs as [Hs Hfit].
+    apply andb_true_iff in Hs. destruct Hs as [Hg Hnl]. apply negb_true_iff in Hnl. apply N.ltb_lt in Hfit.
+    pose proof (leaf_name_len l Hg) as Hn.
+    rewrite raw_box_pre in He.
+    destruct (body_leaf l (dflt_rsv l)) as [b| | |] eqn:Eb; try discriminate.
+    destruct (cat_encs (map (genc false) cs)) as [body| | |] eqn:Ebody; try discriminate.
+    cbn [rcat] in He. injection He as <-.
+    assert (Hlb : 8 + lenN b = size_leaf l).
+    { assert (Hr : raw_leaf l (dflt_rsv l) = Ok (leaf_hdr l ++ b)) by (unfold raw_leaf; now rewrite Eb).
+      pose proof (leaf_size _ _ Hr Hg) as Hl. unfold leaf_hdr in Hl. rewrite Hnl in Hl.
+      unfold enc_hdr in Hl. rewrite !lenN_app, lenN_be_enc, Hn in Hl. lia. }
+    destruct (cat_encs_ok _ _ Ebody) as [Hok Hlen].
+    assert (Hok' : forall c, In c cs -> exists b, raw_box false c = Ok b).
+    { intros c Hin. destruct (Hok (genc false c)) as (b' & Hb'); [now apply in_map|]. now exists b'. }
+    assert (Hch : Forall (every node_ok) cs /\ sumN (map elen (map (genc false) cs)) = sumN (map size_box cs)).
+    { clear - IH Hcs Hok'. induction cs as [|c t IHt]; [split; [constructor|reflexivity]|].
+      cbn [forallb] in Hcs. apply andb_true_iff in Hcs. destruct Hcs as [Hc Ht].
+      inversion IH as [|? ? IHc IHr]; subst.
+      destruct (Hok' c (or_introl eq_refl)) as (b & Hb).
+      pose proof (IHc Hc _ Hb) as Hev.
+      destruct (IHt IHr Ht (fun c' Hin => Hok' c' (or_intror Hin))) as [Hf Hsum].
+      split; [now constructor|]. cbn [map sumN]. rewrite Hsum. f_equal.
+      unfold elen, genc. cbn [snd]. rewrite Hb. destruct (every_head _ _ Hev) as (e' & He' & Hl' & _).
+      rewrite Hb in He'. now injection He' as <-. }
+    destruct Hch as [Hev Hsum].
+    cbn [every]. split; [|now apply every_children].
+    eexists. split.
+    + rewrite raw_box_pre, Eb, Ebody. reflexivity.
+    + cbn [size_box]. split.
+      * unfold enc_hdr. rewrite !lenN_app, lenN_be_enc, Hn, Hlen, Hsum. lia.
+      * apply hdr_field_compact. lia.
 Qed.
 
 (* ---------------------------------------------------------------- the two encode paths *)
@@ -353,17 +423,20 @@ Qed.
 
 Lemma size_ok_fits t : size_ok t = true -> enc_fits t = true.
 Proof.
-  induction t as [h l r|h cs IH|h p] using mbox_ind'; cbn [size_ok enc_fits]; intros H.
+  induction t as [h l r|h cs IH|h p|h l r cs IH] using mbox_ind'; cbn [size_ok enc_fits]; intros H.
   - apply andb_true_iff in H. destruct H as [_ H]. destruct (leaf_large l); [reflexivity|exact H].
   - apply andb_true_iff in H. destruct H as [H Hcs]. apply andb_true_iff in H. destruct H as [_ Hf].
     rewrite Hf. cbn [andb]. apply forallb_forall. intros c Hin.
     rewrite Forall_forall in IH. apply IH; [assumption|]. rewrite forallb_forall in Hcs. now apply Hcs.
   - apply andb_true_iff in H. destruct H as [_ H]. destruct (8 <? h_len h); [reflexivity|exact H].
+  - apply andb_true_iff in H. destruct H as [H Hcs]. apply andb_true_iff in H. destruct H as [_ Hf].
+    rewrite Hf. cbn [andb]. apply forallb_forall. intros c Hin.
+    rewrite Forall_forall in IH. apply IH; [assumption|]. rewrite forallb_forall in Hcs. now apply Hcs.
 Qed.
 
 Lemma size_ok_caps t : size_ok t = true -> caps_ok t = true.
 Proof.
-  induction t as [h l r|h cs IH|h p] using mbox_ind'; cbn [size_ok caps_ok]; intros H.
+  induction t as [h l r|h cs IH|h p|h l r cs IH] using mbox_ind'; cbn [size_ok caps_ok]; intros H.
   - apply andb_true_iff in H. destruct H as [Hg _].
     destruct (raw_leaf l (dflt_rsv l)) as [b| | |] eqn:E; try (destruct l; reflexivity).
     pose proof (leaf_size _ _ E Hg) as Hl. destruct l; try reflexivity; apply N.leb_le; lia.
@@ -371,6 +444,8 @@ Proof.
     rewrite Forall_forall in IH. apply IH; [assumption|]. rewrite forallb_forall in Hcs. now apply Hcs.
   - apply andb_true_iff in H. destruct H as [H _]. apply andb_true_iff in H. destruct H as [_ H].
     apply N.eqb_eq in H. apply N.leb_le. destruct (8 <? h_len h); lia.
+  - apply andb_true_iff in H. destruct H as [_ Hcs]. apply forallb_forall. intros c Hin.
+    rewrite Forall_forall in IH. apply IH; [assumption|]. rewrite forallb_forall in Hcs. now apply Hcs.
 Qed.
 
 Lemma encode_ok t enc : size_ok t = true -> raw_box false t = Ok enc ->
